@@ -290,7 +290,94 @@ class WantSpec(Spec):
         return {'atoms': atoms, 'outcome': '%s/%s' % (v, len(r.trace or ())), 'case': case, 'nontrivial': nontrivial}
 
 
+class FlagSpec(Spec):
+    """"up to the *enabled* normalisations": the flag state under which one want is judged is set by a default option, a
+    block directive somewhere above (alone in its part or after ordinary statements), an inline directive on the
+    checked statement, or left alone by an inline directive on an *earlier* statement - under every spelling of the
+    directive prefix; the verdict must be the one the reference matcher gives under exactly that flag state"""
+    prop = 'C02'
+    name = 'flags'
+    title = 'one want judged under a flag state set by option / block directive / inline directive x spelling'
+    OUT = 'a  b, c'
+    WANTS = ['a  b, c', 'a b, c', 'a  b,c', 'a  b...', 'a b,...', 'zzz']
+    FLAGS_ = ['-NORMALIZE_WHITESPACE', '+IGNORE_WHITESPACE', '-ELLIPSIS', '+NORMALIZE_WHITESPACE', '-IGNORE_WHITESPACE', '+ELLIPSIS']
+    MECHS = ['block', 'inline', 'inline-on-earlier', 'option']
+    SPELL = ['# xdoctest:', '# doctest:', '# XDOCTEST:', '# Doctest:', '# xDoc:', '#xdoctest:']
+    max_len = 6
+
+    def __init__(self):
+        self.rule = ('full product of mechanism %r x flag %r x prefix spelling %r x statements before the directive {0,1} x ordinary '
+                     'statements between directive and checked statement {0,1,2} x want %r against the output %r; expected verdict from '
+                     'the reference matcher under defaults + that flag (defaults alone for inline-on-earlier); non-trivial = the flag '
+                     'decides the verdict' % (self.MECHS, self.FLAGS_, self.SPELL, self.WANTS, self.OUT))
+
+    def histories(self, stats):
+        for mech in self.MECHS:
+            for flag in self.FLAGS_:
+                for sp in (self.SPELL if mech != 'option' else self.SPELL[:1]):
+                    for npre in (0, 1):
+                        for nmid in (0, 1, 2):
+                            if mech == 'inline-on-earlier' and nmid == 0:
+                                continue
+                            for w in self.WANTS:
+                                yield (mech, flag, sp, npre, nmid, w)
+
+    def hist_cost(self, hist):
+        return 0
+
+    def run_case(self, hist):
+        mech, flag, sp, npre, nmid, want = hist
+        fl = dict(FLAGS)
+        base_verdict = matchref.matches(self.OUT, want, fl)
+        if mech != 'inline-on-earlier':
+            fl[flag[1:]] = flag[0] == '+'
+        exp_pass = matchref.matches(self.OUT, want, fl)
+        lines, trace = [], []
+        k = 0
+        for _ in range(npre):
+            k += 1
+            lines.append('>>> v%d = T(%d)' % (k, k)); trace.append(k)
+        if mech == 'block':
+            lines.append('>>> %s %s' % (sp, flag))
+        for i in range(nmid):
+            k += 1
+            c = ('  %s %s' % (sp, flag)) if (mech == 'inline-on-earlier' and i == 0) else ''
+            lines.append('>>> v%d = T(%d)%s' % (k, k, c)); trace.append(k)
+        k += 1
+        lines.append('>>> print(T(%d, %r))%s' % (k, self.OUT, ('  %s %s' % (sp, flag)) if mech == 'inline' else ''))
+        trace.append(k)
+        lines.append(want)
+        lines.append('>>> v9 = T(9)')
+        if exp_pass:
+            trace.append(9)
+        text = '\n'.join(lines)
+        config = None
+        if mech == 'option':
+            from xdoctest.doctest_example import DoctestConfig
+            ns = {'options': flag, 'offset_linenos': False, 'colored': False, 'reportchoice': 'udiff',
+                  'global_exec': None, 'supress_import_errors': False, 'verbose': 0}
+            config = DoctestConfig()._populate_from_cli(ns)
+        r = harness.run_doctest(text, config=config)
+        case = {'doctest': text, 'option': flag if mech == 'option' else None, 'expect': 'passed' if exp_pass else 'failed'}
+        atoms = []
+        tag = '%s:%s' % (mech, flag)
+        if r.raised is not None:
+            atoms.append({'sig': 'flags:run-raised:' + type(r.raised).__name__, 'msg': repr(r.raised)})
+        else:
+            v = harness.verdict_of(r.summary)
+            if v != case['expect']:
+                atoms.append({'sig': 'flags:%s:%s' % ('false-pass' if v == 'passed' else 'false-fail' if exp_pass else v, tag),
+                              'msg': 'verdict %s (%s), the output %r %s the want %r under %s' % (
+                                  v, r.exc_type, self.OUT, 'matches' if exp_pass else 'does not match', want,
+                                  'the defaults' if mech == 'inline-on-earlier' else 'defaults with ' + flag)})
+            elif r.trace != trace:
+                atoms.append({'sig': 'flags:trace:' + tag, 'msg': 'executed %r, expected %r' % (r.trace, trace)})
+            elif not exp_pass and r.exc_type != 'GotWantException':
+                atoms.append({'sig': 'flags:failed-with:' + str(r.exc_type), 'msg': str(r.exc)[:200]})
+        return {'atoms': atoms, 'outcome': case['expect'], 'case': case, 'nontrivial': int(exp_pass != base_verdict)}
+
+
 def specs(tier):
     if tier == 'thorough':
-        return [WantSpec('want-len3', 3), WantSpec('want-len4', 4, 5, min_len=4)]
-    return [WantSpec('want-len2', 2), WantSpec('want-len3', 3, 4, min_len=3)]
+        return [WantSpec('want-len3', 3), WantSpec('want-len4', 4, 5, min_len=4), FlagSpec()]
+    return [WantSpec('want-len2', 2), WantSpec('want-len3', 3, 4, min_len=3), FlagSpec()]
